@@ -97,7 +97,13 @@ TrQuiesce ==
   /\ R.n = Cardinality(tracked) /\ R.tb = SumLen(tracked)                 \* C13 accounting
   /\ planted \/ ItemSet(R.files) \subseteq tracked                          \* C13 no orphan files
   /\ R.junk = 0 \/ planted
-  /\ R.readback => (planted \/ (ItemSet(R.files) = tracked /\ R.disk_bytes = totalBytes))
+  \* C13 read-back clause: a get opens the FIRST tracked entry covering the range, so an entry whose file a racing
+  \* deletion removed is dropped by the read-back unless another tracked entry with a file covers it (it is then
+  \* never opened until that one is evicted); such shadowed phantoms are the only permitted difference
+  /\ R.readback => (planted \/ LET F == ItemSet(R.files) IN
+                                 /\ \A i \in tracked \ F : \E j \in F : j # i /\ j[1] = i[1]
+                                                                  /\ j[2][1] <= i[2][1] /\ i[2][2] <= j[2][2]
+                                 /\ R.disk_bytes = SumLen(F))
   /\ UNCHANGED vars
 
 TraceNext == \/ TrReset \/ TrStart \/ TrFind \/ TrOpen \/ TrRmState \/ TrRmFile \/ TrWrite \/ TrCommit
